@@ -194,6 +194,8 @@ def main():
     tier = os.environ.get('VERIF_TIER', 'quick')
     if '--tier' in args: tier = args[args.index('--tier') + 1]
     seed = int(os.environ.get('VERIF_SEED', '20260926'))
+    global IMPL_TIMEOUT, MODEL_TIMEOUT
+    if tier == 'quick': IMPL_TIMEOUT = 600; MODEL_TIMEOUT = 900        # the quick families take seconds; a hang should not cost an hour
     t0 = time.time()
     rng = random.Random(seed * 1000003 + int(pid[1:]))
     workdir = os.path.join(BUILD, 'run', pid)
